@@ -1361,6 +1361,10 @@ class Emitter:
                     code.append(jump(b.name, dflt))
                 elif op == 'ret':
                     t, v = a
+                    for nm in (contract or {}).get('expose', []):
+                        # ghost copies of selected locals at function exit, so that a postcondition can speak about them
+                        if nm not in decls: raise Unsupported('exposed local %s is not a local of %s' % (nm, fn))
+                        code.append('ll2c_exit_%s = %s;' % (nm, nm))
                     if t is None:
                         code.append('return;')
                     else:
@@ -1489,7 +1493,8 @@ class Emitter:
             for r in contract.get('requires', []): clauses.append('__CPROVER_requires(%s)' % r)
             for e in contract.get('ensures', []): clauses.append('__CPROVER_ensures(%s)' % e)
             if contract.get('assigns') is not None: clauses.append('__CPROVER_assigns(%s)' % contract['assigns'])
-        body = [proto] + clauses + ['{']
+        ghost = ['static %s ll2c_exit_%s;' % (decls[nm], nm) for nm in (contract or {}).get('expose', []) if nm in decls]
+        body = ghost + [proto] + clauses + ['{']
         for cn in order:
             if cn in pnames: continue
             body.append('  %s %s;' % (decls[cn], cn))
